@@ -1,12 +1,14 @@
-(* bufio.Scanner with ScanLines and the default 64 KiB token limit, and the loop of
+(* bufio.Scanner with ScanLines and its token limit (64 KiB by default; the value is regenerated), and the loop of
    processMongoLogStream (src/reader.go:70-99) with an explicit reader / writer fault model. *)
 From Coq Require Import NArith.
 From Model Require Export Line.
+From Gen Require Import Limits.
 Open Scope char_scope. Open Scope list_scope.
 
 Definition nl : ascii := ascii_of_N 10.
 Definition cr : ascii := ascii_of_N 13.
-Definition max_token : N := 65536.
+(* the reader's limit is not written down here: it is measured on the compiled program on every run (Gen/Limits.v) *)
+Definition max_token : N := max_token_dumped.
 
 (* terminated lines (without their newline) and the unterminated tail *)
 Fixpoint split_lines (l : list ascii) : list (list ascii) * list ascii :=
